@@ -1,3 +1,69 @@
-From V Require Import Common.Base C08.SortPerm C08.Comparators.
-Example ex_isort : isort stableRef_less [mkSR 2 (mkRef 0 1); mkSR 1 (mkRef 5 0)] = [mkSR 1 (mkRef 5 0); mkSR 2 (mkRef 0 1)].
+(* C08 non-vacuity: concrete values meeting the hypotheses of the theorems. *)
+From V Require Import Common.Base C08.SortPerm C08.Comparators C08.CmpTheory C08.ComparatorProofs
+  C08.Dfs C08.Serializer gen.MapSitesGen C08.MapSites.
+From Coq Require Import Permutation Sorted.
+
+(* sorting refs that arrived in two different orders gives one result *)
+Definition refsA := [mkSR 2 (mkRef 7 1); mkSR 0 (mkRef 3 5); mkSR 2 (mkRef 7 0); mkSR 1 (mkRef 9 2)].
+Definition refsB := [mkSR 1 (mkRef 9 2); mkSR 2 (mkRef 7 0); mkSR 0 (mkRef 3 5); mkSR 2 (mkRef 7 1)].
+Example ex_sort_same : isort stableRef_less refsA = isort stableRef_less refsB.
 Proof. vm_compute. reflexivity. Qed.
+Example ex_sort_value : isort stableRef_less refsA
+  = [mkSR 0 (mkRef 3 5); mkSR 1 (mkRef 9 2); mkSR 2 (mkRef 7 0); mkSR 2 (mkRef 7 1)].
+Proof. vm_compute. reflexivity. Qed.
+(* the domain hypothesis of stableRefArray_total_on_domain is satisfiable *)
+Definition ex_stable_of (src : Z) : Z := if src =? 3 then 0 else if src =? 9 then 1 else if src =? 7 then 2 else src + 100.
+Example ex_domain : forall a, In a refsA -> sr_stable a = ex_stable_of (r_src (sr_ref a)).
+Proof. intros a [H|[H|[H|[H|[]]]]]; subst; reflexivity. Qed.
+Example ex_perm : Permutation refsA refsB.
+Proof. exact (Permutation_rev refsA). Qed.
+
+(* a tie without the domain condition: the unstable source index differs, the key does not *)
+Example ex_tie_outside_domain :
+  stableRef_less (mkSR 1 (mkRef 4 0)) (mkSR 1 (mkRef 5 0)) = false /\
+  stableRef_less (mkSR 1 (mkRef 5 0)) (mkSR 1 (mkRef 4 0)) = false.
+Proof. split; reflexivity. Qed.
+
+(* symbol counts: descending count, then stable index, then inner index *)
+Example ex_symcount : isort symCount_less [mkSC 1 (mkRef 5 0) 3; mkSC 0 (mkRef 2 4) 3; mkSC 2 (mkRef 6 1) 9]
+  = [mkSC 2 (mkRef 6 1) 9; mkSC 0 (mkRef 2 4) 3; mkSC 1 (mkRef 5 0) 3].
+Proof. vm_compute. reflexivity. Qed.
+
+(* messages: located ones are ordered by file, line, column, kind, text; two
+   location-less ones keep their arrival order in either arrival order *)
+Definition mA := mkMsg None 0 [97].
+Definition mB := mkMsg None 0 [98].
+Definition mC := mkMsg (Some (mkLoc [47;120] [120] 3 0)) 1 [99].
+Example ex_msgs_1 : isort msg_less [mC; mA; mB] = [mA; mB; mC]. Proof. vm_compute. reflexivity. Qed.
+Example ex_msgs_2 : isort msg_less [mB; mC; mA] = [mB; mA; mC]. Proof. vm_compute. reflexivity. Qed.
+
+(* expansion keys, as in Node's PATTERN_KEY_COMPARE *)
+Example ex_ek : isort expansionKeys_less [[46;47;42]; [46;47;97;47]; [46;47;97;42;98]; [46;47;97;42]]
+  = [[46;47;97;47]; [46;47;97;42;98]; [46;47;97;42]; [46;47;42]].
+Proof. vm_compute. reflexivity. Qed.
+
+(* DFS: files 0 (runtime), 1 -> 2,3 ; 3 -> 2 ; entry 1; and the same graph
+   after renaming the arrival indices 1<->3 *)
+Definition filesA := [mkFile (-1) []; mkFile (-1) [(2, -1); (3, -1)]; mkFile (-1) []; mkFile (-1) [(2, -1)]].
+Definition rho13 (n : Z) : Z := if n =? 1 then 3 else if n =? 3 then 1 else n.
+Definition filesB := [mkFile (-1) []; mkFile (-1) [(2, -1)]; mkFile (-1) []; mkFile (-1) [(2, -1); (1, -1)]].
+Example ex_dfs_A : findReachableFiles filesA [1] = Some [0; 2; 3; 1]. Proof. vm_compute. reflexivity. Qed.
+Example ex_dfs_B : findReachableFiles filesB [3] = Some (map rho13 [0; 2; 3; 1]). Proof. vm_compute. reflexivity. Qed.
+Example ex_rho_inj : forall x y, rho13 x = rho13 y -> x = y.
+Proof. intros x y. unfold rho13. repeat match goal with |- context [?a =? ?b] => destruct (Z.eqb_spec a b) end; lia. Qed.
+Example ex_graph_renamed : forall n, In n [0; 1; 2; 3] -> graph_of filesB (rho13 n) = map rho13 (graph_of filesA n).
+Proof. intros n [H|[H|[H|[H|[]]]]]; subst; reflexivity. Qed.
+
+(* serializer: a complete interleaved run of 3 workers *)
+Definition ex_trace := [EvEnter 0; EvWork 0; EvLeave 0; EvEnter 1; EvWork 1; EvLeave 1; EvEnter 2; EvWork 2; EvLeave 2].
+Example ex_ser : match srun 3 sinit ex_trace with Some s => all_left 3 s && list_eqb Nat.eqb (slog s) [0; 1; 2]%nat | None => false end = true.
+Proof. vm_compute. reflexivity. Qed.
+(* worker 1 cannot enter before worker 0 left *)
+Example ex_ser_blocked : srun 3 sinit [EvEnter 0; EvEnter 1] = None. Proof. vm_compute. reflexivity. Qed.
+
+(* the inventory is not empty and contains sites of every class *)
+Example ex_sites_count : length map_sites = 63%nat. Proof. vm_compute. reflexivity. Qed.
+Example ex_sites_sorted : existsb (fun s => match class_of s with Some (SortedAfter _) => true | _ => false end) map_sites = true.
+Proof. vm_compute. reflexivity. Qed.
+Example ex_sites_known_bad : known_are_present_and_bad = true. Proof. vm_compute. reflexivity. Qed.
+Example ex_no_stale : stale_entries = []. Proof. vm_compute. reflexivity. Qed.
